@@ -422,7 +422,8 @@ void RescaledHmmLikelihood::computeDForward_() const
 
   for (size_t j = 0; j < nbStates_; j++)
   {
-    dLikelihood_[0][j] = (dTmp[j] * scales_[0] - tmp[j] * dScales_[0]) / pow(scales_[0], 2);
+    // derivative of tmp[j] / scales_[0] with one division (the square of a small scale factor underflows)
+    dLikelihood_[0][j] = (dTmp[j] - likelihood_[j] * dScales_[0]) / scales_[0];
   }
 
   // Recursion:
@@ -483,7 +484,7 @@ void RescaledHmmLikelihood::computeDForward_() const
 
     for (size_t j = 0; j < nbStates_; j++)
     {
-      dLikelihood_[i][j] = (dTmp[j] * scales_[i] - tmp[j] * dScales_[i]) / pow(scales_[i], 2);
+      dLikelihood_[i][j] = (dTmp[j] - likelihood_[i * nbStates_ + j] * dScales_[i]) / scales_[i];
     }
   }
 
@@ -553,8 +554,9 @@ void RescaledHmmLikelihood::computeD2Forward_() const
 
   for (size_t j = 0; j < nbStates_; j++)
   {
-    d2Likelihood_[0][j] = d2Tmp[j] / scales_[0] - (d2Scales_[0] * tmp[j] + 2 * dScales_[0] * dTmp[j]) / pow(scales_[0], 2)
-        +  2 * pow(dScales_[0], 2) * tmp[j] / pow(scales_[0], 3);
+    // second derivative of tmp[j] / scales_[0] from the normalised vector and its first derivative: one division
+    // (the square and the cube of a small scale factor underflow)
+    d2Likelihood_[0][j] = (d2Tmp[j] - 2 * dLikelihood_[0][j] * dScales_[0] - likelihood_[j] * d2Scales_[0]) / scales_[0];
   }
 
   // Recursion:
@@ -619,8 +621,7 @@ void RescaledHmmLikelihood::computeD2Forward_() const
 
     for (size_t j = 0; j < nbStates_; j++)
     {
-      d2Likelihood_[i][j] = d2Tmp[j] / scales_[i] - (d2Scales_[i] * tmp[j] + 2 * dScales_[i] * dTmp[j]) / pow(scales_[i], 2)
-          +  2 * pow(dScales_[i], 2) * tmp[j] / pow(scales_[i], 3);
+      d2Likelihood_[i][j] = (d2Tmp[j] - 2 * dLikelihood_[i][j] * dScales_[i] - likelihood_[i * nbStates_ + j] * d2Scales_[i]) / scales_[i];
     }
   }
 
